@@ -1,5 +1,6 @@
 import Driver.Loop
 import PyGqlModel.Subscribe
+import PyGqlModel.SubscribeFaults
 open PyGql PyGql.Subscribe
 
 namespace DriverC17
@@ -46,6 +47,19 @@ def handle (j : J) : J :=
     match subscribe r with
     | .refused exc called pulls => .obj [("refused", .str exc), ("subResolverCalled", .bool called), ("pulls", J.ofNat pulls)]
     | .stream rs pulls => .obj [("refused", .null), ("results", .arr (rs.map resultToJson)), ("pulls", J.ofNat pulls)]
+  | "faults" =>
+    -- fault sequences (SubscribeFaults.lean): a consumer that keeps calling `__anext__` after an exception
+    let items : List Item := (j.arrD "items").map fun it =>
+      match it.strD "t" with
+      | "raise" => Item.srcRaise
+      | "crash" => Item.crash (((it.getD "e").asArr?.getD []).map nodeOfJson)
+      | _ => Item.ev (((it.getD "e").asArr?.getD []).map nodeOfJson)
+    let c := XStream.drain true (items.length + 1) ⟨items, ⟨[]⟩, 0, 0⟩
+    .obj [("pulls", .arr (c.1.map fun p => match p with
+            | .result r => resultToJson r
+            | .raised => .str "raised"
+            | .stop => .str "stop")),
+          ("source_pulls", J.ofNat c.2.pulls)]
   | _ => .obj [("error", .str "bad-op")]
 
 end DriverC17
